@@ -40,11 +40,13 @@ def shape_key(c):
     return (c["fam"], tuple(c["nvec"]))
 
 
-def shape_name(key, squash=False, bounds="unit"):
+def shape_name(key, squash=False, bounds="unit", evolved=False):
     fam, nv = key
     s = f"{fam}{'x'.join(str(n) for n in nv)}"
     if squash:
         s += "+squash" + ("" if bounds == "unit" else "+" + bounds)
+    if evolved:
+        s += "+evolved"
     return s
 
 
@@ -239,6 +241,37 @@ def make_actor(key, squash=False, bounds="unit", seed=0, std_init=0.0):
     seed_all(seed)
     return StochasticActor(OBS_SPACE, space_of(key, squash, bounds), squash_output=squash, action_std_init=std_init,
                            **{k: dict(v) for k, v in NET.items()})
+
+
+# the last step is NOT followed by a clone: between two tournaments an agent acts and learns with the network exactly as the
+# mutation left it (clone() rebuilds from init_dict and could repair what recreate_network dropped)
+EVOLVE_STEPS = ["head_net.add_node", "remove_latent_node", "encoder.add_node", "add_latent_node"]
+
+
+def evolve_actor(actor):
+    """The clone-and-mutate history a policy network goes through in evolutionary HPO (one mutation per generation)."""
+    for m in EVOLVE_STEPS:
+        actor = actor.clone()
+        getattr(actor, m)()
+    return actor
+
+
+def evolve_agent(ag, seed=0):
+    """The same history through the real HPO code: clone(), Mutations.architecture_mutate with the sampled method scripted."""
+    from agilerl.hpo import mutation as mut_mod
+
+    mu = mut_mod.Mutations(no_mutation=0, architecture=1, new_layer_prob=0.5, parameters=0, activation=0, rl_hp=0, rand_seed=seed, device="cpu")
+    for m in EVOLVE_STEPS:
+        ag = ag.clone()
+        with mock.patch.object(mut_mod, "get_architecture_mut_method", lambda *a, **k: m):
+            ag = mu.architecture_mutate(ag)
+    return ag
+
+
+def _ev(obj, kernel):
+    if not kernel.evolved:
+        return obj
+    return evolve_agent(obj, kernel.seed) if hasattr(obj, "learn") else evolve_actor(obj)
 
 
 def _net(squash):
@@ -443,9 +476,9 @@ def _mask_arg(rows, k, width):
 class DiscKernel:
     """One action-space shape of a discrete family: the real actor, PPO and IPPO with a stubbed head."""
 
-    def __init__(self, key, seed):
-        self.key, self.seed = key, seed
-        self.shape = shape_name(key)
+    def __init__(self, key, seed, evolved=False):
+        self.key, self.seed, self.evolved = key, seed, evolved
+        self.shape = shape_name(key, evolved=evolved)
         self.width = width_of(key)
         self.samples = []
         self.fails = []
@@ -463,7 +496,7 @@ class DiscKernel:
 
     # ------------------------------------------------------------------ the actor network itself
     def run_actor(self, cases):
-        actor = instrument(make_actor(self.key, seed=self.seed), Head())
+        actor = instrument(_ev(make_actor(self.key, seed=self.seed), self), Head())
         head = actor.head_net.wrapped.forward
         rows = _rows_eval(cases)
         seed_all(self.seed + 11)
@@ -497,7 +530,7 @@ class DiscKernel:
 
     # ------------------------------------------------------------------ PPO
     def run_ppo(self, cases, stride=1, off=0):
-        ag = make_ppo(self.key, seed=self.seed)
+        ag = _ev(make_ppo(self.key, seed=self.seed), self)
         head = Head()
         instrument(ag.actor, head)
         sample_rows = [(c, None) for j, c in enumerate(cases) if j % stride == off or all_ones(c)]
@@ -552,7 +585,7 @@ class DiscKernel:
 
     # ------------------------------------------------------------------ IPPO
     def run_ippo(self, cases, stride=1, off=0):
-        ag = make_ippo(self.key, seed=self.seed)
+        ag = _ev(make_ippo(self.key, seed=self.seed), self)
         heads = []
         for ac in ag.actors:
             h = Head()
@@ -701,9 +734,9 @@ def ippo_rollout(ag, key, part, T, E):
 class BoxKernel:
     """Box(d): Normal(mu, 2^ks); cases are grouped by ks (log_std is one parameter of the actor)."""
 
-    def __init__(self, d, seed, squash=False):
-        self.key, self.d, self.seed, self.squash = ("box", (d,)), d, seed, squash
-        self.shape = shape_name(self.key, squash)
+    def __init__(self, d, seed, squash=False, evolved=False):
+        self.key, self.d, self.seed, self.squash, self.evolved = ("box", (d,)), d, seed, squash, evolved
+        self.shape = shape_name(self.key, squash, evolved=evolved)
         self.samples = []
         self.fails = []
         self.stats = {"actor_calls": 0, "ppo_calls": 0, "ippo_calls": 0, "rows": 0}
@@ -743,7 +776,7 @@ class BoxKernel:
         return pts
 
     def run_actor(self, cases):
-        actor = instrument(make_actor(self.key, squash=self.squash, seed=self.seed), Head())
+        actor = instrument(_ev(make_actor(self.key, squash=self.squash, seed=self.seed), self), Head())
         head = actor.head_net.wrapped.forward
         for ks, cs in sorted(self.groups(cases).items()):
             for k, part in enumerate(_batches(cs, [1, 4, 9, 32], self.seed)):
@@ -784,7 +817,7 @@ class BoxKernel:
                                                              path="eval"), c, batch=len(part), row=i)
 
     def run_ppo(self, cases):
-        ag = make_ppo(self.key, squash=self.squash, seed=self.seed)
+        ag = _ev(make_ppo(self.key, squash=self.squash, seed=self.seed), self)
         head = Head()
         instrument(ag.actor, head)
         for ks, cs in sorted(self.groups(cases).items()):
@@ -830,7 +863,7 @@ class BoxKernel:
             self._learn_path("PPO", ag, [ag.actor], ks, cs)
 
     def run_ippo(self, cases):
-        ag = make_ippo(self.key, squash=self.squash, seed=self.seed)
+        ag = _ev(make_ippo(self.key, squash=self.squash, seed=self.seed), self)
         heads = []
         for ac in ag.actors:
             h = Head()
